@@ -2010,4 +2010,191 @@ theorem stripM_spec (mp : List Nat) (hm : Norm mp) (hne : mp ≠ []) :
       rw [B_eq_two_pow, ← pow_mul, Nat.mul_comm 64 k]
 
 
+
+/-! ### the main path of mpz_powm -/
+
+/-- the tail of mpz_powm (powm.c:270-277): normalise, then `m − r` for a negative base and odd exponent. -/
+theorem negfix_correct (c : Bool) (rp mp : List Nat) (hrL : Limbs rp) (hrl : rp.length = mp.length)
+    (hm : Limbs mp) (hlt : val rp < val mp) :
+    let rn := mpnNormalize rp mp.length
+    let p := if (c && rn != 0) = true then ((sub mp (rp.take rn)).1, mpnNormalize (sub mp (rp.take rn)).1 mp.length)
+             else (rp, rn)
+    (Res.mk p.1 p.2).wf = true ∧
+    ((val (p.1.take p.2) : Nat) : Int) = (if c then -(val rp : Int) else (val rp : Int)) % (val mp : Int) := by
+  intro rn p
+  have hmpos : 0 < val mp := by omega
+  have hnv := normalize_val_full rp mp.length hrl
+  by_cases hc : (c && rn != 0) = true
+  · have hp : p = ((sub mp (rp.take rn)).1, mpnNormalize (sub mp (rp.take rn)).1 mp.length) := by
+      simp only [p, hc, if_true]
+    rw [hp]
+    simp only [Bool.and_eq_true, bne_iff_ne, ne_eq] at hc
+    obtain ⟨hneg, hrn⟩ := hc
+    have hle : val (rp.take rn) ≤ val mp := by rw [hnv]; omega
+    have hlen : (rp.take rn).length ≤ mp.length := by
+      rw [List.length_take]; exact le_trans (Nat.min_le_left _ _) (mpnNormalize_le _ _)
+    obtain ⟨sv, sl, sn⟩ := sub_exact mp _ hm (Limbs_take hrL _) hlen hle
+    refine ⟨wf_normalize _ _, ?_⟩
+    simp only
+    rw [normalize_val_full _ _ sn, sv, hnv, hneg]
+    simp only [if_true]
+    rw [neg_emod_nat _ _ hmpos, Nat.mod_eq_of_lt hlt]
+    have hpos : 0 < val (rp.take rn) := by
+      have := val_take_pos_of_getD rp _ (mpnNormalize_top rp mp.length hrn)
+      have e : mpnNormalize rp mp.length - 1 + 1 = mpnNormalize rp mp.length := by omega
+      rwa [e] at this
+    rw [hnv] at hpos
+    simp only [Nat.ne_of_gt hpos, if_false]
+  · have hp : p = (rp, rn) := by simp only [p, hc, Bool.false_eq_true, if_false]
+    rw [hp]
+    refine ⟨wf_normalize _ _, ?_⟩
+    simp only
+    rw [hnv]
+    cases c with
+    | false =>
+      simp only [Bool.false_eq_true, if_false]
+      rw [Int.emod_eq_of_lt (Int.natCast_nonneg _) (by exact_mod_cast hlt)]
+    | true =>
+      simp only [Bool.true_and, bne_iff_ne, ne_eq, Decidable.not_not] at hc
+      have hz := mpnNormalize_eq_zero rp mp.length hc
+      rw [take_length_eq rp _ hrl] at hz
+      simp only [if_true]
+      rw [hz]; simp
+
+
+/-- the vector `rp[0..n)` before normalisation in the main path: `b^e mod m`, `n` proper limbs. -/
+theorem powmMain_rp (bp ep mp : List Nat) (hb : Limbs bp) (hbne : bp ≠ []) (hep : Norm ep) (hepne : ep ≠ [])
+    (h2 : 2 ≤ val ep) (hm : Norm mp) (hmne : mp ≠ []) (hsz : mp.length * 64 < B) :
+    let modd := (stripM mp).1.take (stripM mp).2.1
+    let rodd := mpn_powm bp ep modd
+    let rp := if ((stripM mp).2.2.1 != 0) = true
+      then powmEven mp.length bp ep modd (stripM mp).2.1 (stripM mp).2.2.1 (stripM mp).2.2.2 rodd else rodd
+    val rp = val bp ^ val ep % val mp ∧ Limbs rp ∧ rp.length = mp.length := by
+  obtain ⟨hL, hlen, hn1, hodd, hcnt, hle, hle2, hle3, h0, h1⟩ := stripM_spec mp hm hmne
+  simp only at hL hlen hn1 hodd hcnt hle hle2 hle3 h0 h1 ⊢
+  have hmpos := Norm_pos mp hm hmne
+  generalize (stripM mp).1.take (stripM mp).2.1 = modd at *
+  generalize (stripM mp).2.1 = nodd at *
+  generalize (stripM mp).2.2.1 = ncnt at *
+  generalize (stripM mp).2.2.2 = cnt at *
+  have hmoddpos : 0 < val modd := by omega
+  have hmoddlt : val modd < B ^ nodd := by rw [← hlen]; exact val_lt modd hL
+  have hroddeq : mpn_powm bp ep modd = toLimbs nodd (val bp ^ val ep % val modd) := by
+    unfold mpn_powm
+    rw [mpn_powm_val_spec _ bp ep modd hep hepne hL (by omega) hodd, hlen]
+  by_cases hz : ncnt = 0
+  · subst hz
+    have : ((0 : Nat) != 0) = false := rfl
+    simp only [this, Bool.false_eq_true, if_false]
+    have hn : nodd = mp.length := by omega
+    rw [hroddeq, val_toLimbs_lt _ _ (lt_trans (Nat.mod_lt _ hmoddpos) hmoddlt), h0 rfl]
+    exact ⟨rfl, Limbs_toLimbs _ _, by rw [toLimbs_length, hn]⟩
+  · have : (ncnt != 0) = true := by simpa using hz
+    simp only [this, if_true]
+    have hfit : 2 ^ tbits ncnt cnt * val modd < B ^ mp.length := by rw [← h1 hz]; exact val_lt mp hm.1
+    obtain ⟨ev, eL, el⟩ := powmEven_correct mp.length bp ep modd (mpn_powm bp ep modd) nodd ncnt cnt hb hbne hep hepne
+      hL hlen hodd (by omega) hcnt hle hle2 hfit (by omega) hroddeq
+      (fun bq hbq => mpn_powlo_spec bq ep ncnt hbq hep hepne h2)
+      (fun u hu => binvert_spec u ncnt (by omega) hu)
+    rw [h1 hz]
+    exact ⟨ev, eL, el⟩
+
+theorem powmMain_correct (bneg : Bool) (bp ep mp : List Nat) (hb : Limbs bp) (hbne : bp ≠ []) (hep : Norm ep)
+    (hepne : ep ≠ []) (h2 : 2 ≤ val ep) (hm : Norm mp) (hmne : mp ≠ []) (hsz : mp.length * 64 < B) :
+    (Res.mk (powmMain bneg bp ep mp).1 (powmMain bneg bp ep mp).2).wf = true ∧
+    ((val ((powmMain bneg bp ep mp).1.take (powmMain bneg bp ep mp).2) : Nat) : Int) =
+      (if (decide (ep.headD 0 % 2 = 1) && bneg) = true then -((val bp ^ val ep % val mp : Nat) : Int)
+       else ((val bp ^ val ep % val mp : Nat) : Int)) % (val mp : Int) := by
+  obtain ⟨rv, rL, rl⟩ := powmMain_rp bp ep mp hb hbne hep hepne h2 hm hmne hsz
+  have hmpos := Norm_pos mp hm hmne
+  have hdef : powmMain bneg bp ep mp =
+      (let modd := (stripM mp).1.take (stripM mp).2.1
+       let rodd := mpn_powm bp ep modd
+       let rp := if ((stripM mp).2.2.1 != 0) = true
+         then powmEven mp.length bp ep modd (stripM mp).2.1 (stripM mp).2.2.1 (stripM mp).2.2.2 rodd else rodd
+       let rn := mpnNormalize rp mp.length
+       if ((decide (ep.headD 0 % 2 = 1) && bneg) && rn != 0) = true
+       then ((sub mp (rp.take rn)).1, mpnNormalize (sub mp (rp.take rn)).1 mp.length) else (rp, rn)) := rfl
+  rw [hdef]
+  simp only
+  generalize (if ((stripM mp).2.2.1 != 0) = true then _ else _ : List Nat) = rp at *
+  have hlt : val rp < val mp := by rw [rv]; exact Nat.mod_lt _ hmpos
+  have := negfix_correct (decide (ep.headD 0 % 2 = 1) && bneg) rp mp rL rl hm.1 hlt
+  simp only at this
+  rw [rv] at this
+  exact this
+
+
+theorem norm_val_ge_two (ep : List Nat) (hep : Norm ep) (hne : ep ≠ [])
+    (hnot : ¬ (ep.length = 1 ∧ ep.headD 0 = 1)) : 2 ≤ val ep := by
+  have hge := Norm_ge ep hep hne
+  match ep, hne with
+  | [x], _ =>
+    have hx : x ≠ 0 := by simpa using hep.2 (by simp)
+    simp at hnot ⊢; omega
+  | x :: y :: l, _ =>
+    simp only [List.length_cons] at hge
+    have : B ^ 1 ≤ B ^ (l.length + 1 + 1 - 1) := Nat.pow_le_pow_right B_pos (by omega)
+    rw [pow_one] at this
+    have hB : 2 ≤ B := by simp [B_eq]
+    omega
+
+/-- powm.c:104-284 after the exponent's sign has been dealt with: `(±x)^e mod m` for `e ≥ 1`. -/
+theorem powmGo_correct (ep mp : List Nat) (bneg : Bool) (x : Nat) (hep : Norm ep) (hepne : ep ≠ [])
+    (hm : Norm mp) (hmne : mp ≠ []) (hsz : mp.length * 64 < B) :
+    (powmGo ep mp bneg (natLimbs x)).value? =
+      some ((if bneg then -(x : Int) else (x : Int)) ^ val ep % (val mp : Int)) ∧
+    (powmGo ep mp bneg (natLimbs x)).wf = true := by
+  have hepos : 0 < val ep := Norm_pos ep hep hepne
+  have hmpos : 0 < val mp := Norm_pos mp hm hmne
+  unfold powmGo
+  by_cases hx : x = 0
+  · subst hx
+    simp only [natLimbs_zero, List.length_nil, if_true, Res.value?, Res.wf, List.take_nil, val_nil]
+    refine ⟨?_, by simp⟩
+    have : (if bneg then -((0 : Nat) : Int) else ((0 : Nat) : Int)) = 0 := by cases bneg <;> simp
+    rw [this, zero_pow (Nat.ne_of_gt hepos)]; simp
+  · have hbne : natLimbs x ≠ [] := fun h => hx ((natLimbs_eq_nil _).mp h)
+    have hl : (natLimbs x).length ≠ 0 := fun h => hbne (List.length_eq_zero_iff.mp h)
+    simp only [hl, if_false]
+    have hbN := Norm_natLimbs x
+    by_cases he1 : (ep.length = 1 && ep.headD 0 = 1) = true
+    · simp only [he1, if_true]
+      have hv1 : val ep = 1 := by
+        simp only [Bool.and_eq_true, decide_eq_true_eq] at he1
+        match ep, he1 with
+        | [y], ⟨_, h⟩ => simp at h; simp [h]
+      obtain ⟨hw, hv⟩ := powmE1_correct bneg (natLimbs x) mp hbN hbne hm hmne
+      refine ⟨?_, hw⟩
+      unfold Res.value?
+      simp only [Option.some.injEq]
+      rw [hv, val_natLimbs, hv1, pow_one]
+    · simp only [he1, Bool.false_eq_true, if_false]
+      have h2 : 2 ≤ val ep := norm_val_ge_two ep hep hepne (by simpa using he1)
+      obtain ⟨hw, hv⟩ := powmMain_correct bneg (natLimbs x) ep mp hbN.1 hbne hep hepne h2 hm hmne hsz
+      refine ⟨?_, hw⟩
+      unfold Res.value?
+      simp only [Option.some.injEq]
+      rw [hv, val_natLimbs]
+      have hpar : ep.headD 0 % 2 = val ep % 2 := (val_mod_two ep).symm
+      have hPm : ((x ^ val ep % val mp : Nat) : Int) ≡ (x : Int) ^ val ep [ZMOD (val mp : Int)] := by
+        have := natCast_mod_modEq (x ^ val ep) (val mp)
+        push_cast at this ⊢; exact this
+      cases bneg with
+      | false =>
+        simp only [Bool.and_false, Bool.false_eq_true, if_false]
+        exact hPm
+      | true =>
+        simp only [Bool.and_true, decide_eq_true_eq, if_true]
+        by_cases hodd : ep.headD 0 % 2 = 1
+        · simp only [hodd, if_true]
+          have ho : Odd (val ep) := Nat.odd_iff.mpr (by omega)
+          rw [ho.neg_pow]
+          exact hPm.neg
+        · simp only [hodd, if_false]
+          have hev : Even (val ep) := Nat.even_iff.mpr (by omega)
+          rw [hev.neg_pow]
+          exact hPm
+
+
 end Mpir.Powm
